@@ -132,7 +132,11 @@ func (f *faultFactory) AcquirePage(index int64) (page.MappedPage, error) {
 	if err := pfault.acquire(f.Factory, f.key, f.path, f.pageSize, index); err != nil {
 		return nil, err
 	}
-	return f.Factory.AcquirePage(index)
+	p, err := f.Factory.AcquirePage(index)
+	if err == nil && f.key == "index" {
+		idxTrack.set(index, p) // reset_test.go: the index page the queue stores its next entry through
+	}
+	return p, err
 }
 
 // ---- appends under faults ------------------------------------------------------------------------
